@@ -178,6 +178,17 @@ func init() {
 			return v
 		}
 	}
+	specTable["k8s.io/apimachinery/pkg/runtime/schema.ParseGroupVersion"] = func(e *Exec, cc *callCtx) Val {
+		v := e.uninterp("ext_schema.ParseGroupVersion", cc.args, cc.resT)
+		e.declFun("ufb_validGroupVersion", []string{"String"}, "Bool")
+		e.assume(Eq(Eq(v.Tup[1].Term, "nil_any"), app("ufb_validGroupVersion", cc.args[0].Term)), "ParseGroupVersion succeeds exactly on valid group/versions")
+		return v
+	}
+	specTable["(k8s.io/client-go/dynamic.Interface).Resource"] = func(e *Exec, cc *callCtx) Val {
+		v := e.uninterp("ext_dynamic.Interface.Resource", cc.args, cc.resT)
+		e.assume(Not(Eq(v.Term, "nil_any")), "dynamic.Interface.Resource returns a client")
+		return v
+	}
 	specTable["reflect.DeepEqual"] = func(e *Exec, cc *callCtx) Val {
 		return Val{T: cc.resT, Term: e.define(cc.f.prefix+"deq", "Bool", e.deepEqualAny(cc.args[0].Term, cc.args[1].Term))}
 	}
